@@ -20,7 +20,8 @@ import (
 // is scheduled, a wedged one never does. The watcher lives outside the bubble on its own OS thread and
 // sleeps in a raw system call; it wakes every few seconds of wall time only (short runs never see it) and
 // reads one counter, so it does not disturb the schedule of a live run. Only when the count has stood
-// still for several rounds does it stop the world to take the goroutine dump.
+// still for several rounds (24 s by default: a machine that swaps can starve a healthy process for seconds) does it
+// stop the world to take the goroutine dump.
 //
 // What it reports: the goroutines that wait on a mutex with code of the repository on their stack. For
 // engines whose property includes "the call returns" (curWorld.wedgeIsViolation) that is the violation,
@@ -34,7 +35,7 @@ func verifExecTickCount() uint64
 
 func startWedgeWatch() {
 	interval := envInt("VERIF_WEDGE_INTERVAL_S", 3)
-	rounds := int(envInt("VERIF_WEDGE_ROUNDS", 3))
+	rounds := int(envInt("VERIF_WEDGE_ROUNDS", 8))
 	go func() {
 		runtime.LockOSThread()
 		last := verifExecTickCount()
